@@ -71,6 +71,7 @@ def _build_model(r, defs, shared):
     src += "def _jvec(self) -> JetVec: ...\nEv.jvec = _jvec\n"
     src += f"@func_adl_callable()\ndef fn({sig_src(r, defs, False)}) -> float: ...\n"
     src += "@func_adl_callable()\ndef pick(js: Iterable[Jet], n: int = 0) -> Jet: ...\n"
+    src += "@func_adl_callable()\ndef wrap(x: float, mode: str = 'b') -> float: ...\n"
     g = {}
     exec(src, g)
     g["__SRC__"] = src
@@ -96,6 +97,10 @@ SITES = {
     "d1fnchain": ("lambda {a}: pick({a}.jets()).tgt({ARGS})", "Jet"),
     "d1fnchainkw": ("lambda {a}: pick(n=1, js={a}.jets()).tgt({ARGS})", "Jet"),
     "d2fnchain": ("lambda {a}: {a}.jets().Select(lambda {b}: pick({a}.jets()).tgt({ARGS}) + {b}.pt())", "Jet"),
+    # the call under test is the value of a keyword argument of another typed call
+    "kwvalue": ("lambda {a}: wrap(x={a}.tgt({ARGS}))", "Ev"),
+    "kwvalue-d2": ("lambda {a}: {a}.jets().Select(lambda {b}: wrap(mode='c', x={b}.tgt({ARGS})))", "Jet"),
+    "kwvalue-meth": ("lambda {a}: {a}.jets(kind={a}.tgt({ARGS})).Select(lambda {b}: {b}.pt())", "Ev"),
     # a method of a user's own iterable class (also under names the stream class uses itself)
     "itercoll": ("lambda {a}: {a}.jvec().tgt({ARGS})", "JetVec"),
     "after2": ("lambda {a}: {a}.jets().Select(lambda {b}: {b}.trks().Select(lambda {c}: {c}.q()).First() + {b}.tgt({ARGS}))", "Jet"),
